@@ -27,3 +27,10 @@ Definition holds_mix (c : mcase) : bool :=
 Record ccase := CC { c_v0 : Qc; c_ops : list cop; c_obs : list Qc }.
 Definition corr_ctl (c : ccase) : bool := list_eqb Qc_eqb (c_obs c) (crun (c_v0 c) (c_ops c)).
 Definition holds_ctl (c : ccase) : bool := list_eqb Qc_eqb (c_obs c) (cspec_run (c_v0 c) [] (c_ops c)).
+
+(* Round 2: several objects alive in one process (built one after another, consumed interleaved).  The code keeps no
+   state outside the object, so every object must follow the per-object model on its own sub-history. *)
+Definition corr_mixes (l : list mcase) : bool := forallb corr_mix l.
+Definition holds_mixes (l : list mcase) : bool := forallb holds_mix l.
+Definition corr_ctls (l : list ccase) : bool := forallb corr_ctl l.
+Definition holds_ctls (l : list ccase) : bool := forallb holds_ctl l.
